@@ -6,47 +6,13 @@ import Mathlib.Data.List.Sort
 import Mathlib.Data.List.Nodup
 import Mathlib.Data.String.Basic
 import SSJ.Model.TokenOrdering
+import SSJ.Proofs.DictFold
 
 namespace SSJ
 
 /-! ### Dictionary basics -/
 namespace Dict
 variable {κ ν : Type} [DecidableEq κ]
-
-theorem get?_set_self (d : List (κ × ν)) (k : κ) (v : ν) :
-    Dict.get? (Dict.set d k v) k = some v := by
-  induction d with
-  | nil => simp [set, get?]
-  | cons p m ih =>
-    obtain ⟨k', v'⟩ := p
-    by_cases h : k' = k
-    · simp [set, get?, h]
-    · simp [set, get?, h, ih]
-
-theorem get?_set_other (d : List (κ × ν)) (k c : κ) (v : ν) (h : k ≠ c) :
-    Dict.get? (Dict.set d k v) c = Dict.get? d c := by
-  induction d with
-  | nil => simp [set, get?, h]
-  | cons p m ih =>
-    obtain ⟨k', v'⟩ := p
-    by_cases h1 : k' = k
-    · subst h1; simp [set, get?, h]
-    · by_cases h2 : k' = c
-      · subst h2; simp [set, get?, h1]
-      · simp [set, get?, h1, h2, ih]
-
-theorem keys_set (d : List (κ × ν)) (k : κ) (v : ν) :
-    (Dict.set d k v).map (·.1) =
-      if k ∈ d.map (·.1) then d.map (·.1) else d.map (·.1) ++ [k] := by
-  induction d with
-  | nil => simp [set]
-  | cons p m ih =>
-    obtain ⟨k', v'⟩ := p
-    by_cases h : k' = k
-    · subst h; simp [set]
-    · have h' : ¬ k = k' := fun e => h e.symm
-      simp only [set, h, if_false, List.map_cons, ih, List.mem_cons, h', false_or]
-      split <;> simp
 
 theorem keys_nodup_set (d : List (κ × ν)) (k : κ) (v : ν) (h : (d.map (·.1)).Nodup) :
     ((Dict.set d k v).map (·.1)).Nodup := by
@@ -70,18 +36,6 @@ theorem get?_isSome_iff (d : List (κ × ν)) (k : κ) :
     · simp [get?, h]
     · have h' : ¬ k = k' := fun e => h e.symm
       simp [get?, h, h', ih]
-
-theorem mem_of_get? (d : List (κ × ν)) (k : κ) (v : ν) (h : Dict.get? d k = some v) :
-    (k, v) ∈ d := by
-  induction d with
-  | nil => simp [get?] at h
-  | cons p m ih =>
-    obtain ⟨k', v'⟩ := p
-    by_cases hk : k' = k
-    · simp [get?, hk] at h
-      simp [hk, h]
-    · simp only [get?, hk, if_false] at h
-      exact List.mem_cons_of_mem _ (ih h)
 
 theorem get?_of_mem (d : List (κ × ν)) (k : κ) (v : ν) (hnd : (d.map (·.1)).Nodup)
     (h : (k, v) ∈ d) : Dict.get? d k = some v := by
